@@ -63,7 +63,14 @@ for text in sorted(strings):
         else:
             continue
         seen.add(key)
-        out[kind].append({"std": std, "lines": [ln.strip() for ln in lines]})
+        ent = {"std": std, "lines": [ln.strip() for ln in lines]}
+        if kind == "exec":
+            # usable in the middle of an execution part (i.e. not a declaration)?
+            ent["in_construct"] = accepted(std, "subroutine zz(u)\nreal :: x\nif (x > 0) then\n" +
+                                           body + "\nx = 2\nend if\nend subroutine zz\n")
+            ent["after_exec"] = accepted(std, "subroutine zz(u)\nreal :: x\nx = 1\n" + body +
+                                         "\nx = 2\nend subroutine zz\n")
+        out[kind].append(ent)
         break
 for k, v in out.items():
     print(k, len(v))
